@@ -211,6 +211,18 @@ func init() {
 		"verifSame": func(e *Exec, t *Thread, a []Value, g bool) (Value, bool) {
 			return done(e.sameBits(e.ifaceTarget(a[0]), e.ifaceTarget(a[1])))
 		},
+		"verifThreadID": func(e *Exec, t *Thread, a []Value, g bool) (Value, bool) {
+			return done(e.C.BVConst(64, uint64(t.ID)))
+		},
+		"verifLockCount": func(e *Exec, t *Thread, a []Value, g bool) (Value, bool) {
+			return done(e.C.BVConst(64, uint64(len(e.sync(e.syncObj(a[0].(Iface).V.(Ptr))).acq))))
+		},
+		"verifLockTime": func(e *Exec, t *Thread, a []Value, g bool) (Value, bool) {
+			return done(e.sync(e.syncObj(a[0].(Iface).V.(Ptr))).acq[e.intArg(a[1])].at)
+		},
+		"verifLockThread": func(e *Exec, t *Thread, a []Value, g bool) (Value, bool) {
+			return done(e.C.BVConst(64, uint64(e.sync(e.syncObj(a[0].(Iface).V.(Ptr))).acq[e.intArg(a[1])].tid)))
+		},
 		"verifFail": func(e *Exec, t *Thread, a []Value, g bool) (Value, bool) {
 			panic(pathEnd{kind: "assert", detail: e.strArg(a[0]), site: e.callerPos(t)})
 		},
@@ -245,6 +257,12 @@ func init() {
 			return done(e.C.FFromBits(a[0].(*term.T)))
 		},
 		"math/rand.Float64": func(e *Exec, t *Thread, a []Value, g bool) (Value, bool) {
+			if e.Cfg.RandChoice {
+				// representative values instead of a symbolic float (keeps virtual time concrete)
+				k := e.Choose(3, "rand")
+				e.recordConcreteNondet("choice", int64(k))
+				return done(e.C.F64([]float64{0, 0.5, 0.9999999}[k]))
+			}
 			// fresh f with 0 <= f < 1: 53 random bits / 2^53
 			n := e.newNondet(64, "u64")
 			m := e.C.Bin(term.OpAnd, n, e.C.BVConst(64, (1<<53)-1))
@@ -263,6 +281,7 @@ func init() {
 				panic("granted Lock on a locked mutex")
 			}
 			s.locked = true
+			s.acq = append(s.acq, lockEvent{tid: t.ID, at: e.nowT()})
 			vcJoin(&t.vc, s.vc)
 			e.tick(t)
 			e.memVer++
